@@ -144,4 +144,7 @@ def run_detailed(ctx, count, seed, prop, modes=(0,), variant="plain"):
 
 
 def summary(res):
-    return {k: res[k] for k in ("runs", "states", "callbacks", "outcomes", "moved_runs", "polarity_orient_changed_runs", "hpwl_improved_runs")}
+    d = {k: res[k] for k in ("runs", "states", "callbacks", "outcomes", "moved_runs", "polarity_orient_changed_runs", "hpwl_improved_runs")}
+    from checks import dopt_common as do_
+    d["net_weights"] = do_.weight_summary([split_dp(l)[1][len(split_dp(l)[0]):] for l in res["lines"]])
+    return d
